@@ -77,7 +77,7 @@ def _check(ui, pi, strip, url):
     except ValueError:
         return True                              # not a valid request: never reaches a handler (C08)
     h, seen = _proxy(ui, pi, strip)
-    resp, exc = drive(h._handle_async(req))
+    resp, exc = drive(internal(h, "_handle_async")(req))
     if exc is not None or len(seen) != 1:
         return False
     up_url, follow = seen[0]
